@@ -22,6 +22,7 @@ def identity_member(desc, tier, seed):
     g = b.dsg
     wit = ['graph-api', 'copy']
     nt = (desc.label,)
+    h0, f0 = hash(g), g.fingerprint()
     c = g.copy()
     ctx.check('C18.copy-equal', c == g and g == c, wit, 'copy is not equal to the original', nt)
     ctx.check('C18.copy-same-hash', hash(c) == hash(g), wit, 'copy has another hash', nt)
@@ -83,6 +84,8 @@ def identity_member(desc, tier, seed):
     for name, e in edits:
         ctx.check('C18.edit-makes-unequal', not (e == g) and not (g == e), ['graph-api', name],
                   f'after {name} the graphs still compare equal', (desc.label, name))
+        ctx.check('C18.original-identity-unchanged-by-editing-a-copy', hash(g) == h0 and g.fingerprint() == f0,
+                  ['graph-api', name], f'after {name} on a copy the original has another hash/fingerprint', (desc.label, name, 'orig'))
     # pickle round trip of graph and processor
     try:
         g2 = pickle.loads(pickle.dumps(g))
@@ -206,7 +209,11 @@ def sup_member(desc, tier, seed):
             maps.append((sc, SupSelChoiceOptionMapping(b.choice[c.cid], mapping)))
             spec[c.cid] = (so, s_inactive, sc)
         # existence mapping over two nodes of the source, priority order = insertion order
-        cands = [n for n in desc.nodes if n not in desc.start and b.node[n] in src.graph.nodes][:2]
+        special = [d.name for d in desc.dvs] + [m.name for m in desc.metrics]
+        pool = [n for n in special + [x for x in desc.nodes if x not in desc.start] if b.node[n] in src.graph.nodes]
+        # design-variable / metric nodes first (their str() differs from str_context()), conditional ones preferred
+        pool.sort(key=lambda n: (n not in special, n in perm_nodes))
+        cands = pool[:2]
         en = SupNode('org_exist')
         sup.add_edge(root, en)
         eo = {n: SupNode(f'ex_{n}') for n in cands}
